@@ -115,6 +115,19 @@ THEOREMS = [
 ]
 
 
+def changed_methods(names):
+    """Fallback mode: methods whose Go source differs from the one the snapshot was generated from (all, if anything else in package asm changed)."""
+    import json
+    try:
+        cur = json.load(open(os.path.join(vlib.GEN, "GenEmitterSrc.json")))
+        old = json.load(open(os.path.join(vlib.COQ, "Snapshot", "GenEmitterSrc.json")))
+    except Exception:
+        return set(names)
+    if cur.get("rest") != old.get("rest"):
+        return set(names)
+    return {n for n in names if cur["methods"].get(n) != old["methods"].get(n)}
+
+
 def progressions(tier, seed, force_full):
     """bits -> list of (start, step, k): 2^k call numbers (start + j*step) mod 2^bits."""
     rnd = random.Random(seed)
@@ -152,6 +165,30 @@ def coq_list_print(out, name):
     return re.findall(r'"([^"]*)"', m.group(1))
 
 
+def failed_item(src, out):
+    """Name of the Lemma/Theorem/Definition of src in which coqc reported its (first) error, or None."""
+    m = re.search(r'line (\d+), characters', out)
+    if not m:
+        return None
+    lines = src.splitlines()
+    for i in range(min(int(m.group(1)), len(lines)) - 1, -1, -1):
+        mm = re.match(r"(?:Lemma|Theorem|Definition)\s+(\w+)", lines[i])
+        if mm:
+            return mm.group(1)
+    return None
+
+
+def item_ok(src, rc, out, name):
+    """An item of a per-run file is accepted iff coqc got past it (items after the failing one were not checked)."""
+    if rc == 0:
+        return True
+    bad = failed_item(src, out)
+    if bad is None:
+        return False
+    order = re.findall(r"^(?:Lemma|Theorem|Definition)\s+(\w+)", src, re.M)
+    return name in order and bad in order and order.index(name) < order.index(bad)
+
+
 def hygiene():
     bad = []
     for rel in ("Spec/EmitSpec.v", "Model/EmitDesc.v", "Props/EncProps.v"):
@@ -163,12 +200,16 @@ def hygiene():
     return bad
 
 
-def write_specfile(path, P, names):
+def write_specfile(path, P, names, own=None):
+    own = own or {}
     with open(path, "w") as f:
         for b, ps in sorted(P.items()):
             f.write("B %d %s\n" % (b, " ".join("%d:%d:%d" % p for p in ps)))
         for n in names:
-            f.write("M %s\n" % n)
+            if n in own:
+                f.write("X %s %s\n" % (n, " ".join("%d:%d:%d" % p for p in own[n])))
+            else:
+                f.write("M %s\n" % n)
 
 
 def go_digests(harness, specfile):
@@ -275,7 +316,7 @@ def run_c03(ck):
             bad_descs = coq_list_print(out, "bad_descs") or []
             unconv = coq_list_print(out, "unconventional") or []
             desc_ok = rc == 0
-            ck.oblige("Lemma tracker_checked : tracker_ok tracker_info = true (IsM16bit tests $20, IsX16bit tests $10)", rc == 0, out)
+            ck.oblige("Lemma tracker_checked : tracker_ok tracker_info = true (IsM16bit tests $20, IsX16bit tests $10)", item_ok(DESC_V, rc, out, "tracker_checked"), out)
             ck.oblige("Lemma descs_checked : forallb (desc_ok kinds) methods = true (vm_compute, %d descriptors)%s"
                       % (len(descs), "" if not bad_descs else "; failing: " + ", ".join(bad_descs)), rc == 0 and not bad_descs, out)
             ck.oblige("Theorem C03 : C03_statement tracker_info kinds methods (instance of C03_generic; forall args in range, forall flags)", rc == 0, out)
@@ -288,7 +329,7 @@ def run_c03(ck):
             rc, out, dt, _ = vlib.coqc(cv, timeout=900)
             b65, balt = coq_list_print(out, "bad65") or [], coq_list_print(out, "badalt") or []
             ck.oblige("Theorem C03_cpu65 : the opcode table of emulator/cpu65c816 decodes every emitted instruction to the same mnemonic / compatible mode / operand / length%s"
-                      % ("" if not b65 else "; failing: " + ", ".join(b65)), rc == 0, out)
+                      % ("" if not b65 else "; failing: " + ", ".join(b65)), rc == 0 or (not b65 and failed_item(CPU_V, out) == "cpualt_checked"), out)
             ck.oblige("Theorem C03_cpualt : same for emulator/cpualt%s" % ("" if not balt else "; failing: " + ", ".join(balt)), rc == 0, out)
             ck.assumptions += vlib.parse_assumptions(out)
             ck.cov["cpu_table_mismatch"] = {"cpu65c816": b65, "cpualt": balt}
@@ -324,12 +365,23 @@ def run_c03(ck):
     tie_ok = False
     tie_calls = 0
     bad_tie = []
-    P = progressions(tier, ck.seed, fallback)
+    P = progressions(tier, ck.seed, False)
+    PF = progressions(tier, ck.seed, True)
+    own = {}
+    if fallback:
+        # the snapshot is not derived from the current source: methods that changed since the snapshot are
+        # compared with the compiled code over their WHOLE operand range, whatever the tier
+        chg = changed_methods(list(descs))
+        ck.cov["fallback_changed_methods"] = sorted(chg)
+        for n in chg:
+            b = sum({"TU8": 8, "TI8": 8, "TFlags": 8, "TU16": 16, "TU32": 32, "TLabel": 0}[t] for t in descs[n]["ptys"])
+            if b > 16:
+                own[n] = PF[b]
     go_rows = {}
     bits = {}
     if harness and have_gen and descs:
         spec = os.path.join(vlib.RUN, "C03_digest.spec")
-        write_specfile(spec, P, sorted(descs))
+        write_specfile(spec, P, sorted(descs), own)
         rc, go_rows, bits, derrs, dout, gdt = go_digests(harness, spec)
         if rc != 0 or derrs or set(go_rows) != set(descs):
             ck.oblige("tie: harness digests", False, (str(derrs) + dout[-800:]))
@@ -338,11 +390,11 @@ def run_c03(ck):
             units = []
             for n in descs:
                 mult = 1 if descs[n]["indep"] else 4
-                for pi, p in enumerate(P[bits[n]]):
+                for pi, p in enumerate(own.get(n) or P[bits[n]]):
                     units.append(((1 << p[2]) * mult + 2000, n, pi))
                     tie_calls += (1 << p[2]) * 4
             units.sort(reverse=True)
-            nsh = SHARDS if tier == "thorough" or fallback else min(SHARDS, 12)
+            nsh = SHARDS if tier == "thorough" or own else min(SHARDS, 12)
             shards = [[0, {}] for _ in range(nsh)]
             for cost, n, pi in units:
                 sh = min(shards, key=lambda s: s[0])
@@ -353,7 +405,7 @@ def run_c03(ck):
                 lines = []
                 for n in sorted(content):
                     pis = sorted(content[n])
-                    ps = "; ".join(prog_coq(P[bits[n]][pi]) for pi in pis)
+                    ps = "; ".join(prog_coq((own.get(n) or P[bits[n]])[pi]) for pi in pis)
                     rows = "; ".join("[" + "; ".join("%d%%uint63" % go_rows[n][st][pi] for pi in pis) + "]" for st in STATES)
                     lines.append('  ("%s", [%s], [%s])' % (n, ps, rows))
                 fv = os.path.join(vlib.RUN, "Cases_C03_%d.v" % k)
@@ -420,7 +472,7 @@ def run_c03(ck):
             n0 = sorted(set(bad_tie))[0]
             try:
                 rv = os.path.join(vlib.RUN, "C03_rows.v")
-                ps = P[bits[n0]]
+                ps = own.get(n0) or P[bits[n0]]
                 open(rv, "w").write(HDR + 'Definition r := Eval vm_compute in match find_desc methods "%s" with Some d => method_digests tracker_info kinds d [0;16;32;48] [%s] | None => [] end.\nPrint r.\n'
                                     % (n0, "; ".join(prog_coq(p) for p in ps)))
                 rc2, out2, _ = vlib.sh(["coqc"] + vlib.COQ_ARGS + [rv], timeout=3000, env=dict(os.environ))
@@ -449,7 +501,7 @@ def run_c03(ck):
     ck.cov.update({
         "exhaustive": False,
         "exhaustive_note": "operand values are universally quantified in Theorem C03 (proof, not enumeration); the tie and the falsifier enumerate all 2^8 / 2^16 operand values of every method under all four width states, "
-                           + ("all 2^24 values of 24-bit operands" if tier == "thorough" or fallback else "a strided + boundary + high-byte-garbage sample of 24-bit operands"),
+                           + ("all 2^24 values of 24-bit operands" if tier == "thorough" else "a strided + boundary + high-byte-garbage sample of 24-bit operands"),
         "evaluations": tie_calls + fsum.get("calls", 0),
         "distinct_nontrivial": fsum.get("nontrivial", 0),
         "rule": "one evaluation = one call of an instruction method on the real emitter (tie digest stream or falsifier); distinct_nontrivial counts, in the falsifier's primary enumeration only "
